@@ -94,7 +94,15 @@ type TypeErr struct {
 
 func (e TypeErr) String() string { return fmt.Sprintf("%s:%d: %s", e.File, e.Line, e.Msg) }
 
+// SkipBand makes parseDir ignore *_band.go files (to check the user package on its own).
+var skipBandKey = "\x00skipband"
+
 func parseDir(fset *token.FileSet, dir string, withTests bool) ([]*ast.File, []string, error) {
+	skipBand := false
+	if strings.HasSuffix(dir, skipBandKey) {
+		skipBand = true
+		dir = strings.TrimSuffix(dir, skipBandKey)
+	}
 	ents, err := os.ReadDir(dir)
 	if err != nil {
 		return nil, nil, err
@@ -107,6 +115,9 @@ func parseDir(fset *token.FileSet, dir string, withTests bool) ([]*ast.File, []s
 			continue
 		}
 		if strings.HasSuffix(n, "_test.go") && !withTests {
+			continue
+		}
+		if skipBand && strings.HasSuffix(n, "_band.go") {
 			continue
 		}
 		f, err := parser.ParseFile(fset, filepath.Join(dir, n), nil, parser.ParseComments|parser.SkipObjectResolution)
@@ -338,4 +349,21 @@ func (a *Analysis) Decls(fn *Func) []Decl {
 	})
 	sort.SliceStable(out, func(i, j int) bool { return out[i].Line < out[j].Line })
 	return out
+}
+
+// UserPackageAloneOK type-checks the user package WITHOUT the emitted files and reports
+// whether it is free of errors: if it is, every error seen with the emitted files present is
+// caused by them, wherever the type checker happens to report it.
+func UserPackageAloneOK(base *Importer, pkgPath, dir string, caseDirs map[string]string) bool {
+	var errs []TypeErr
+	ci := &caseImporter{base: base, dirs: caseDirs, local: map[string]*types.Package{}}
+	_, _, _, err := checkDir(base.Fset, pkgPath, dir+skipBandKey, ci, &errs, false)
+	return err == nil && len(errs) == 0
+}
+
+// PromoteUserErrors marks all errors as caused by the emitted files.
+func (a *Analysis) PromoteUserErrors() {
+	for i := range a.Errors {
+		a.Errors[i].Band = true
+	}
 }
